@@ -407,5 +407,6 @@ pub fn run(p: &Params) -> Run {
     for focus in &["limit", "group"] { crate::e2ef::stream(&mut run, &mut frng, p.n(100, 2000), focus); }
     // the program itself: SIGINT while `--follow` waits on an idle file
     crate::cli::interrupt_stream(&mut run, &mut Rng::new(p.seed ^ 0x19c1), p.n(6, 60));
+    crate::cli::batch_interrupt_stream(&mut run, &mut Rng::new(p.seed ^ 0x19c2), p.n(6, 60));
     run
 }
